@@ -13,6 +13,7 @@ from ssh_audit.ssh2_kexparty import SSH2_KexParty
 from ssh_audit.outputbuffer import OutputBuffer
 
 _real_socket, _real_gai = socket.socket, socket.getaddrinfo
+PENDING = object()          # script item: the connection stays open and silent
 
 
 def packet(payload, bad_block=False):
@@ -182,9 +183,16 @@ class FakeNet:
         return [(socket.AF_INET, socket.SOCK_STREAM, 6, '', (ip, port)) for ip in [self.ip_of[host]] + list(extra)]
 
     def select(self, rlist, wlist, xlist, timeout=None):
-        """every fake socket is readable at once (its script decides what recv returns)"""
+        """every fake socket is readable at once (its script decides what recv returns), except one whose script says PENDING: the peer accepted the
+        connection and says nothing (a tarpit); when nothing is readable the call takes a little time, like a real select() with a timeout"""
         self.selects = getattr(self, 'selects', 0) + 1
-        return [s for s in rlist if isinstance(s, FakeSocket)], [], []
+        if self.selects > getattr(self, 'select_budget', 20000):
+            raise SystemExit(99)          # a hang: the audit keeps polling connections that will never answer
+        ready = [s for s in rlist if isinstance(s, FakeSocket) and not (s.chunks and s.chunks[0] is PENDING)]
+        if not ready and timeout:
+            import time
+            time.sleep(min(timeout, 0.02))
+        return ready, [], []
 
     def __enter__(self):
         import select as _select
